@@ -66,7 +66,7 @@ var props = map[string]propCfg{
 	"C15": {quick: q(30, 8), thorough: th(20 * time.Minute)},
 	"C16": {quick: q(150, 8), thorough: th(20 * time.Minute)},
 	"C17": {quick: q(400, 8), thorough: th(30 * time.Minute), race: true},
-	"C18": {quick: q(1500, 8), thorough: th(15 * time.Minute)},
+	"C18": {quick: q(3000, 8), thorough: th(15 * time.Minute)},
 	"C20": {quick: q(540, 8), thorough: th(30 * time.Minute)},
 }
 
